@@ -362,20 +362,45 @@ def run_case(case, r):
     if fam == "stub":
         reduced = rgb and bool(case["red"])
         tol = 1e-9 if is_int else 0.0
-        # stub family: the input class is the data path (kind, reduction, promotion, filter)
-        tag = f"stub/{kind}-{'reduced' if reduced else 'unreduced'}/{num}/{clean}"
-        exc_tag = f"stub/{kind}-{'reduced' if reduced else 'unreduced'}/{clean}"
     else:
         reduced = rgb and case["red"] not in ("none", "")
         tol = 2e-5 if ("float32" in (dt, pdt) or case["red"] == "gray") else 1e-12
-        # real family: the input class is the combination of anchored components
-        tag = f"real/red={case['red'] or 'identity'}/res={case['res'].split()[0]}/mod={case['mod']}"
-        exc_tag = f"real/{kind}-{'reduced' if reduced else 'unreduced'}/{clean}"
+    kr = f"{kind}-{'reduced' if reduced else 'unreduced'}"
+    if fam == "real":
+        # real family: a lattice point with exactly one anchored component is attributed to
+        # that component, every other one to "combined" (so a defect of one component lands
+        # in two cells per clause, a pipeline defect in at most 19)
+        comps = [f"{k}={(case[k] or 'identity').split()[0]}" for k in ("red", "bal", "res", "mod") if case[k] != "none"]
+        real_tag = "none" if not comps else (comps[0] if len(comps) == 1 else "combined")
 
     def cell(clause, opt=None):
+        """A-priori cell: clause x the coordinates that clause depends on."""
         if clause == "no-exception":
-            return f"C13/no-exception/{exc_tag}"
-        return f"C13/{clause}/{tag}" + (f"/diff={opt}" if (opt and fam == "stub") else "")
+            return f"C13/no-exception/{fam}/{kr}/{clean}"
+        if fam == "real":
+            return f"C13/{clause}/real/{real_tag}"
+        d = f"/diff={opt}" if opt else ""
+        if clause == "composition":
+            return f"C13/composition/stub/{kr}/{num}/{clean}{d}"
+        if clause == "baseline-zero":
+            return f"C13/baseline-zero/stub/{kr}/{num}/{clean}"
+        if clause == "stage-order":
+            return f"C13/stage-order/stub/order={order}"
+        if clause.startswith("stage-input/"):
+            return f"C13/{clause}/stub{d}"
+        if clause == "cleaning-filter":
+            return f"C13/cleaning-filter/stub/{kr}{d}"
+        if clause == "history":
+            return f"C13/history/stub/{clean}{d}"
+        if clause == "probe-unmodified":
+            return f"C13/probe-unmodified/stub/{num}"
+        if clause == "scalar-image":
+            return f"C13/scalar-image/stub/{kr}/{cls}"
+        if clause == "metadata":
+            return f"C13/metadata/stub/{kind}/{cls}"
+        if clause.startswith("diff-identity/"):
+            return f"C13/{clause}/stub/{num}"
+        raise AssertionError(clause)
 
     # ---- data -------------------------------------------------------------------
     B = _ints(shape, rgb, "base")
